@@ -96,16 +96,44 @@ SURVIVED_FIRST = {
     "C19-10": "the interval was always 1 s; 3 s time-lines with a sparse writer added",
     "C20-9": "no raw writes through a handle; rawhandle kinds with and without trailing line break added",
     "C20-10": "every field could be encoded; calls with a field whose encoding panics added (if the call returns, its line is due)",
+    # round 6 (see ROUND6_first_attempt.jsonl)
+    "C01-11": "the logger with several references was never the root logger; the generated logger may now be configured under the name root (sync or async)",
+    "C02-12": "root was always a synchronous Logger; it may now be an AsyncLogger, and a logging call that never returns is a verdict (watchdog)",
+    "C03-11": "killed by the C19 check (outage over several boundaries, then restoration); the C03 paths have no failing rotation - listed under also_checks",
+    "C04-11": "references of directly built loggers were listed in ascending order; the order is now generated",
+    "C04-12": "no event was ever submitted at level NONE (code 0); kind ev0 added to the histories",
+    "C06-11": "events in the Discard histories were INFO/WARN only; PANIC-level events (kind evP) arriving at a full buffer added",
+    "C07-12": "the reflect zoo had no named scalar types with their own MarshalJSON/MarshalText; enum and masked-string types added",
+    "C08-12": "killed by the C03 check (events of several goroutines sharing milliseconds through one layout); listed under also_checks",
+    "C09-12": "hostile characters only ever appeared in the first key written; later keys are now hostile too",
+    "C10-11": "context fields and call fields never shared a key; the context hook may now return a field with the key id",
+    "C10-12": "killed by the C04 check (Block histories that run the buffer full, every accepted event delivered once with its own content); listed under also_checks",
+    "C11-12": "every site was called with a synchronous logger behind the tag; TestC11_Saturated calls them while an asynchronous logger's buffer is full, under each policy",
+    "C12-11": "backlogs at Destroy drained within milliseconds; TestC12_Restart now has one backlog per run that takes longer than 3 s to drain",
+    "C12-12": "handles were written to with Write only; odd writers now go through io.WriteString from several goroutines",
+    "C13-11": "zone offsets were constant during a run; TestC13_ZoneChange lives through a change of the local zone's UTC offset every 6 s",
+    "C13-12": "maximum ages were 1000 h; now 1-3 h in a zone west of UTC (one fixed zone per step instead of one by derived seed, which left the west zone out at most seeds)",
+    "C14-11": "the configured directory was never a symbolic link; spelling 5 added",
+    "C15-11": "placeholders were never padded with white space; padded forms added",
+    "C16-11": "start failures were plugin-level faults; I/O start failures of an asynchronous RollingFile logger (missing directory) added as invalid-late variants",
+    "C16-12": "the root logger of the second configuration was synchronous; it may now be asynchronous",
+    "C17-11": "NOT killed by quick: results stay correct, only the cost of deep nesting becomes cubic (64 KiB nested 13000 deep: about an hour). `./check C17 thorough` ends INCONCLUSIVE (child still running after 600 s), never OK; see limits",
+    "C18-11": "a refused registration was only required to panic; the lifecycle machine now also requires that it leaves no tag behind (GetAllTags)",
+    "C18-12": "every rejected Refresh was followed by Destroy; early-invalid Refreshes (nothing started) are now followed by registrations, which must still be possible",
+    "C19-11": "killed by the C16 check (I/O start failure, then a write through a handle before Destroy); listed under also_checks",
+    "C19-12": "the mid-interval rule was checked for 1 s intervals; with 3 s intervals a failed creation must not be retried within the interval (deterministic sparse3 write), and a file named for a mid-interval second is a violation",
+    "C20-11": "one appender per logger in the crash kinds; kind console+file (two references with the default range) added",
+    "C20-12": "nothing was logged after Destroy in a child; kind default-after-destroy added (the built-in console logger serves again)",
 }
 
 _first = None
 
 def first_attempt_survived(sid):
-    """Rounds 4 and 5 keep the raw first-attempt output; earlier rounds are listed in SURVIVED_FIRST only if they survived."""
+    """Rounds 4 to 6 keep the raw first-attempt output; earlier rounds are listed in SURVIVED_FIRST only if they survived."""
     global _first
     if _first is None:
         _first = {}
-        for f in ("ROUND4_first_attempt.jsonl", "ROUND5_first_attempt.jsonl"):
+        for f in ("ROUND4_first_attempt.jsonl", "ROUND5_first_attempt.jsonl", "ROUND6_first_attempt.jsonl"):
             fp = os.path.join(ROOT, "seeded", f)
             if os.path.exists(fp):
                 for line in open(fp):
